@@ -52,6 +52,7 @@ type Contract struct {
 	Line     int
 	Options  map[string]string
 	GhostSets []*GhostSet
+	Decreases  *Clause // function-level variant for (direct) recursion
 	AllocBound *Clause // allocbound <int expr over entry values>: every sized allocation requests at most this many elements
 }
 
@@ -414,6 +415,15 @@ func (cs *ContractSet) loadFile(path string, goFile bool, pkgName string, assume
 				continue
 			}
 			return fmt.Errorf("%s:%d: bare invariant (use: loop <k> invariant ...)", path, l.line)
+		case "decreases":
+			if cur == nil {
+				return fmt.Errorf("%s:%d: decreases outside func block", path, l.line)
+			}
+			c, err := mkClause("decreases", label, rest, l.line, nil)
+			if err != nil {
+				return err
+			}
+			cur.Decreases = c
 		case "allocbound":
 			if cur == nil {
 				return fmt.Errorf("%s:%d: allocbound outside func block", path, l.line)
